@@ -13,6 +13,7 @@ import BBProps.C01
 import BBProofs.Chunking
 import BBProofs.Bits
 import BBProofs.MemPages
+import BBProofs.GenEq
 
 namespace BB
 
@@ -62,6 +63,37 @@ theorem C04_pages_none (p : Pages.Params) (h : p.canRelease = false) : Pages.rel
 /-! Non-vacuity: 20 000 packed 2048-bit rows give two releases. -/
 example : (Pages.releases { base := 4096, offset := 128, ncols := 256, itemsize := 1, P := 2097152, nrows := 20000 }).length = 2 := by
   rw [Pages.releases_length _ (by decide)]
+  decide
+
+/-! ## The same for the code itself
+
+`BBGen.*` is the Lean text `tools/py2lean.py` wrote from the Python sources on this run; `PV` is the
+Python / NumPy value algebra of `BBModel/PyNum.lean` (see `BBProofs/GenEq.lean`). -/
+
+/-- code: the `_madvise_dontneed` calls that the translated `_ArrayMemPagesManager` makes inside the row
+loop of `fit` over a memory-mapped 2-D array are exactly the model's `Pages.releases` (to which
+`C04_pages`, `C04_pages_disjoint`, `C04_pages_none` apply) -/
+theorem C04_code_pages (expf : Rat → Rat) (data off ncols ps itemsize nrows : Nat) (hc : 0 < ncols)
+    (hps : 0 < ps) (hP : ps * 512 < 2 ^ 53) (hb : off ≤ data) :
+    codeLoop expf nrows 0 (BBGen._ArrayMemPagesManager_from_bb_input expf PV.pynone (PV.int data)
+        (PV.bool true) (PV.int 2) (PV.int off) (PV.int ncols) (PV.int ps))
+      = (Pages.releases (pagesOf data off ncols itemsize ps nrows)).map relPV :=
+  gen_pages expf data off ncols ps itemsize nrows hc hps hP hb
+
+/-- code: the manager built by `from_bb_input` is the model's (`can_release`, step, rows per step, start) -/
+theorem C04_code_pages_init (expf : Rat → Rat) (data off ncols ps : Nat) (hc : 0 < ncols)
+    (hP : ps * 512 < 2 ^ 53) (hb : off ≤ data) (itemsize nrows : Nat) :
+    BBGen._ArrayMemPagesManager_from_bb_input expf PV.pynone (PV.int data) (PV.bool true) (PV.int 2)
+        (PV.int off) (PV.int ncols) (PV.int ps)
+      = if (pagesOf data off ncols itemsize ps nrows).canRelease then
+          [PV.bool true, PV.int ((pagesOf data off ncols itemsize ps nrows).P : Nat),
+            PV.int ((pagesOf data off ncols itemsize ps nrows).iters : Nat),
+            PV.int ((pagesOf data off ncols itemsize ps nrows).base : Nat)]
+        else [PV.bool false, PV.int ((pagesOf data off ncols itemsize ps nrows).P : Nat), PV.int 0, PV.int 0] :=
+  gen_pages_init expf data off ncols ps hc hP hb itemsize nrows
+
+/-! Non-vacuity: 256-byte rows, a 128-byte header, 4 KiB pages: 8192 rows per release. -/
+example : (pagesOf 1000128 128 256 1 4096 20000).canRelease = true ∧ (pagesOf 1000128 128 256 1 4096 20000).iters = 8192 := by
   decide
 
 end BB
